@@ -14,6 +14,7 @@ class Recorder:
         self.hmac512 = {}     # (key, msg) -> bytes
         self.pbkdf2 = {}      # (name, pw, salt, rounds, dklen) -> bytes
         self.nfkd = {}        # (form, str) -> str
+        self.h160 = {}        # bytes -> bytes (repository hash160 = ripemd160(sha256(x)))
         self.prf_stub = None  # optional callable (key, msg) -> bytes|None
 
     def reset(self):
@@ -21,6 +22,7 @@ class Recorder:
         self.hmac512.clear()
         self.pbkdf2.clear()
         self.nfkd.clear()
+        self.h160.clear()
 
     # ---- proxies ----
     class _Sha256Obj:
@@ -116,6 +118,18 @@ class Recorder:
         patch(helper, "hmac", self.hmac_proxy())
         patch(bip39, "hashlib", self.hashlib_proxy())
         patch(bip39, "unicodedata", self.unicodedata_proxy())
+        import btc_hd_wallet.bip32 as bip32
+        import btc_hd_wallet.keys as keys
+        import btc_hd_wallet.base_wallet as base_wallet
+        real_h160 = helper.hash160
+        rec = self
+
+        def h160(s):
+            d = real_h160(s)
+            rec.h160[bytes(s)] = d
+            return d
+        for m in (bip32, keys, base_wallet):
+            patch(m, "hash160", h160)
         try:
             yield self
         finally:
@@ -128,6 +142,9 @@ class Recorder:
         for x in extra:
             items[bytes(x)] = _hashlib.sha256(bytes(x)).digest()
         return "[" + ";".join('("%s","%s")' % (k.hex(), v.hex()) for k, v in items.items()) + "]"
+
+    def h160_table(self):
+        return "[" + ";".join('("%s","%s")' % (k.hex(), v.hex()) for k, v in self.h160.items()) + "]"
 
     def hmac_table(self):
         return "[" + ";".join('("%s","%s","%s")' % (k.hex(), m.hex(), v.hex()) for (k, m), v in self.hmac512.items()) + "]"
